@@ -98,6 +98,8 @@ static inline bool rxv_denotes(const InstructionByteCode* ibc, const NativeRegis
 #define RXV_RU_POST(R) (self->registerUsage[R] == \
 	(spec_modifies(spec_kind_of(instr->opcode), instr->dst, instr->src, instr->imm32, R) ? i : __CPROVER_old(self->registerUsage[R])))
 
+#define RXV_RU_POST_X(R) (self->registerUsage[R] == \
+	(SPEC_MODIFIES_X(instr->opcode, instr->dst, instr->src, instr->imm32, R) ? i : __CPROVER_old(self->registerUsage[R])))
 #define RXV_RU_PRE(R) (-1 <= self->registerUsage[R] && self->registerUsage[R] < i)
 
 void BytecodeMachine_compileInstruction(struct BytecodeMachine* self, Instruction* instr, int i, InstructionByteCode* ibc)
@@ -118,6 +120,27 @@ __CPROVER_ensures(rxv_denotes(ibc, self->nreg, instr->opcode, instr->dst, instr-
 		__CPROVER_old(self->registerUsage[6]), __CPROVER_old(self->registerUsage[7]))))
 __CPROVER_ensures(RXV_RU_POST(0) && RXV_RU_POST(1) && RXV_RU_POST(2) && RXV_RU_POST(3))
 __CPROVER_ensures(RXV_RU_POST(4) && RXV_RU_POST(5) && RXV_RU_POST(6) && RXV_RU_POST(7))
+__CPROVER_ensures(self->nreg == __CPROVER_old(self->nreg));
+
+/* Slim contract of the same function, carrying only what the structural argument of C07 needs (last-writer table and
+   branch target).  It is enforced on the real body in its own obligation and used in place of the full contract where
+   the `denotes` clause would only slow the caller's proof down. */
+void rxv_compileInstruction_lw(struct BytecodeMachine* self, Instruction* instr, int i, InstructionByteCode* ibc)
+__CPROVER_requires(__CPROVER_is_fresh(self, sizeof(*self)))
+__CPROVER_requires(__CPROVER_is_fresh(self->nreg, sizeof(NativeRegisterFile)))
+__CPROVER_requires(__CPROVER_is_fresh(instr, sizeof(*instr)))
+__CPROVER_requires(__CPROVER_is_fresh(ibc, sizeof(*ibc)))
+__CPROVER_requires(0 <= i && i < 32768)
+__CPROVER_requires(RXV_RU_PRE(0) && RXV_RU_PRE(1) && RXV_RU_PRE(2) && RXV_RU_PRE(3))
+__CPROVER_requires(RXV_RU_PRE(4) && RXV_RU_PRE(5) && RXV_RU_PRE(6) && RXV_RU_PRE(7))
+__CPROVER_assigns(*ibc, __CPROVER_object_whole(self->registerUsage))
+__CPROVER_ensures(!SPEC_IS_CBRANCH_X(instr->opcode) || ibc->target ==
+	rxv_sel8(instr->dst, __CPROVER_old(self->registerUsage[0]), __CPROVER_old(self->registerUsage[1]),
+		__CPROVER_old(self->registerUsage[2]), __CPROVER_old(self->registerUsage[3]),
+		__CPROVER_old(self->registerUsage[4]), __CPROVER_old(self->registerUsage[5]),
+		__CPROVER_old(self->registerUsage[6]), __CPROVER_old(self->registerUsage[7])))
+__CPROVER_ensures(RXV_RU_POST_X(0) && RXV_RU_POST_X(1) && RXV_RU_POST_X(2) && RXV_RU_POST_X(3))
+__CPROVER_ensures(RXV_RU_POST_X(4) && RXV_RU_POST_X(5) && RXV_RU_POST_X(6) && RXV_RU_POST_X(7))
 __CPROVER_ensures(self->nreg == __CPROVER_old(self->nreg));
 #endif /* RXV_NATIVE */
 
